@@ -1,8 +1,10 @@
 /-
   C14 — a moc-set file always reflects the history of updates applied to it.
-  Theorems about the reference state machine (`Model/MocSet.lean`); the real `mocset` binary is
-  compared with it after EVERY command of generated histories (exit status + `list` rows, file
-  bytes unchanged on refusal, `extract` = the MOC added) by the correspondence check.
+  Theorems about the reference state machine (`Model/MocSet.lean`) and, since session 5, about the FILE
+  (`Model/MocSetFile.lean`: metadata / index words, data bytes): every command on the file commutes with the
+  reader's abstraction map (`file_*_refines`, `file_history_refines`).  The real `mocset` binary is compared
+  with both after EVERY command of generated histories (exit status + `list` rows, the file word for word,
+  file bytes unchanged on refusal, `extract` = the MOC added) by the correspondence check.
 -/
 import MocVerif.Lemmas.Canon
 import MocVerif.Model.MocSet
